@@ -121,6 +121,16 @@ func (a *AuthorRequest) MarshalBinary() ([]byte, error) {
 	if err := a.Validate(); err != nil {
 		return nil, err
 	}
+	switch {
+	case a.User.Len() > maxUint8Len:
+		return nil, errFieldTooLong("authorRequest", "user", a.User.Len(), maxUint8Len)
+	case a.Port.Len() > maxUint8Len:
+		return nil, errFieldTooLong("authorRequest", "port", a.Port.Len(), maxUint8Len)
+	case a.RemAddr.Len() > maxUint8Len:
+		return nil, errFieldTooLong("authorRequest", "rem-addr", a.RemAddr.Len(), maxUint8Len)
+	case len(a.Args) > maxUint8Len:
+		return nil, errFieldTooLong("authorRequest", "arg count", len(a.Args), maxUint8Len)
+	}
 	buf := make([]byte, 0, AuthorRequestLen+len(a.Args))
 	buf = append(buf, uint8(a.Method))
 	buf = append(buf, uint8(a.PrivLvl))
@@ -299,6 +309,14 @@ func (a *AuthorReply) MarshalBinary() ([]byte, error) {
 	// validate
 	if err := a.Validate(); err != nil {
 		return nil, err
+	}
+	switch {
+	case len(a.Args) > maxUint8Len:
+		return nil, errFieldTooLong("authorReply", "arg count", len(a.Args), maxUint8Len)
+	case a.ServerMsg.Len() > maxUint16Len:
+		return nil, errFieldTooLong("authorReply", "server-msg", a.ServerMsg.Len(), maxUint16Len)
+	case a.Data.Len() > maxUint16Len:
+		return nil, errFieldTooLong("authorReply", "data", a.Data.Len(), maxUint16Len)
 	}
 	buf := make([]byte, 0, AuthorReplyLen)
 	buf = append(buf, uint8(a.Status))
